@@ -36,6 +36,10 @@ def run(w: World, rep: Report):
     depend(rep, w, 'rules_c19', ('C19.R3', 'C19.R4'), 'C09.TD19',
            'the configuration of a run is what the embedder supplied for that run: no run writes into a shared default '
            'argument or into the embedder\'s dictionaries (C19.R3/R4 re-evaluated)', floor=20)
+    depend(rep, w, 'rules_c06', ('C06.R1',), 'C09.TD6',
+           'eval_return governs the RETURN of an evaluated script at every nesting level: the flag left by a RETURN is '
+           'consumed by EVAL unless eval_return is set, so IF / TRY / LOOP bodies around it behave as at top level '
+           '(C06.R1 re-evaluated)', floor=8)
     rep.explanation = (
         'Decides, per sub-tape construction site and per run_tape call site, that the embedder\'s '
         'configuration reaches the nested execution: constructor keywords / attribute stores '
